@@ -70,10 +70,52 @@ pub fn explore(opts: &Opts) -> Explored {
                             for a_tracked in [true, false] {
                                 items.push(Item {
                                     sub: format!("broadcast/{}", op.name()),
-                                    prog: Program { leaves: leaves.clone(), nodes: nodes.clone(), retrack: Vec::new() },
+                                    prog: Program { leaves: leaves.clone(), nodes: nodes.clone(), retrack: Vec::new(), frozen: Vec::new(), dropped: Vec::new() },
                                     mask: vec![a_tracked, true, false],
                                 });
                             }
+                        }
+                    }
+                }
+            }
+        }
+    }
+    // the broadcast operand enters through a reshape that only adds, moves or removes unit dimensions
+    // (a view sharing its storage), alone and next to a direct use of the same array
+    let small = union(shapes(2, 3), vec![vec![1, 2, 1], vec![2, 1, 2], vec![1, 1, 3]]);
+    for b in &small {
+        let core: Vec<usize> = b.iter().cloned().filter(|d| *d != 1).collect();
+        for t in shapes_with_numel(numel(b), 4) {
+            let tcore: Vec<usize> = t.iter().cloned().filter(|d| *d != 1).collect();
+            if &t == b || tcore != core {
+                continue;
+            }
+            for a in &sh {
+                if a.len() > 3 {
+                    continue;
+                }
+                let out = match broadcast_dims(a, &t) {
+                    Some(o) => o,
+                    None => continue,
+                };
+                for op in [OpK::Add, OpK::Mul] {
+                    for direct in [false, true] {
+                        let leaves = vec![lf(a, 0, var), lf(b, 1, var), lf(b, 2, var)];
+                        let mut nodes = vec![PNode { op: OpK::Reshape(t.clone()), args: vec![1] }, PNode { op: op.clone(), args: vec![0, 3] }];
+                        if direct {
+                            // a direct use of b at its own shape, added when the shapes allow it
+                            if broadcast_dims(&out, b).is_none() {
+                                continue;
+                            }
+                            nodes.push(PNode { op: OpK::Mul, args: vec![1, 2] });
+                            nodes.push(PNode { op: OpK::Add, args: vec![4, 5] });
+                        }
+                        for m in [[true, true, false], [false, true, false]] {
+                            items.push(Item {
+                                sub: format!("reshape-view/{}", op.name()),
+                                prog: Program { leaves: leaves.clone(), nodes: nodes.clone(), retrack: Vec::new(), frozen: Vec::new(), dropped: Vec::new() },
+                                mask: m.to_vec(),
+                            });
                         }
                     }
                 }
@@ -97,7 +139,7 @@ pub fn explore(opts: &Opts) -> Explored {
                 nodes.push(PNode { op: OpK::Add, args: vec![3, 4] });
             }
             for m in [[false, false, true], [true, true, true]] {
-                items.push(Item { sub: "broadcast/matmul-bias".into(), prog: Program { leaves: leaves.clone(), nodes: nodes.clone(), retrack: Vec::new() }, mask: m.to_vec() });
+                items.push(Item { sub: "broadcast/matmul-bias".into(), prog: Program { leaves: leaves.clone(), nodes: nodes.clone(), retrack: Vec::new(), frozen: Vec::new(), dropped: Vec::new() }, mask: m.to_vec() });
             }
         }
     }
